@@ -147,6 +147,22 @@ def narrowing_rule(F, R, rule, scope_text, in_scope, floor, audited=None):
                     used.add(inst)
                     R.ok(rule, inst, "audited: " + audited[inst], fn.loc(st), how="audited")
                     continue
+                # the cast may have moved between a function and an item nested in it (closure <-> nested fn, renumbered closure): an
+                # audited entry of the same parent function with the same types whose own cast is gone stands for it
+                all_names = getattr(R, "all_fn_names", None) or set()
+
+                def parent(nm):
+                    parts = nm.split("::")
+                    while len(parts) > 1 and (parts[-1].startswith("{closure") or "::".join(parts[:-1]) in all_names):
+                        parts = parts[:-1]
+                    return "::".join(parts)
+                me = parent(strip_generics(fn.name))
+                alt = [k2 for k2 in audited if k2 not in used and k2.split("/")[-1].split("#")[0] == "%s->%s" % (sty, dty)
+                       and parent(k2.rsplit("/", 1)[0]) == me and k2.rsplit("/", 1)[0] not in all_names]
+                if len(alt) == 1:
+                    used.add(alt[0])
+                    R.ok(rule, inst, "audited: %s [entry moved from %s]" % (audited[alt[0]], alt[0].rsplit("/", 1)[0]), fn.loc(st), how="audited")
+                    continue
                 R.violation(rule, inst, "%s narrows %s to %s with `as` where the source is only known to lie in %s: values outside %s..=%s are silently "
                             "truncated" % (fn.name, sty, dty, "[%s, %s]" % (lo if lo is not None else s[0], hi if hi is not None else s[1]), d[0], d[1]), fn.loc(st))
     R.floor(rule, "integer casts examined", n, floor)
@@ -284,3 +300,25 @@ def producers(fn, D, o, depth=12, seen=None):
             else:
                 out.add(("?", k, None))
     return out
+
+
+def same_file_callees(F, fn):
+    """functions of the same source file that `fn` calls directly (resolved callees): where a maintainer's extracted helper ends up"""
+    out = []
+    for bi, t in fn.calls():
+        c = t.get("callee") or {}
+        for cid in (c.get("rid"), c.get("id")):
+            g = F.fns.get(cid) if cid else None
+            if g is not None and g.file == fn.file and g.id != fn.id and g not in out:
+                out.append(g)
+    return out
+
+
+def fn_or_helper(F, fn, pred):
+    """`fn` if it has the shape `pred` looks for, else the same-file helper it calls that has it (one level), else None"""
+    if pred(fn):
+        return fn
+    for g in same_file_callees(F, fn):
+        if pred(g):
+            return g
+    return None
